@@ -37,6 +37,10 @@ pub enum DOp {
     Compare(u8, u8),
     /// run a complete priority-first traversal from the node and keep nothing
     PfsTraverse(u8),
+    /// every lookup query (is_connected, find_outbound, find_inbound, degrees)
+    /// between every pair of nodes, sources ascending (false) or descending
+    /// (true), targets likewise; keeps nothing
+    Lookups(bool),
 }
 
 impl DOp {
@@ -56,6 +60,7 @@ impl DOp {
             DOp::Drop(i) => format!("drop(h.remove({}))", i),
             DOp::DropContainerElsewhere => "drop the container on another thread".into(),
             DOp::Compare(u, v) => format!("let _ = n{} < n{}, max(n{}, n{}) ...", u, v, u, v),
+            DOp::Lookups(desc) => format!("for every pair (u, v){}: u.is_connected(&v); u.find_outbound(&v); u.find_inbound(&v); u.degree()", if *desc { " in descending order" } else { "" }),
             DOp::PfsTraverse(u) => format!("n{}.pfs().for_each(..).search()", u),
         }
     }
@@ -88,6 +93,11 @@ pub struct DModel {
     pub directed: bool,
     pub edges: Vec<(u8, u8)>,
     pub handles: Vec<MH>,
+    /// lookup queries have been made at some point of the history (they must
+    /// not change what is released when, but are kept apart so that histories
+    /// continuing after them are explored)
+    #[serde(default)]
+    pub queried: bool,
 }
 
 impl DModel {
@@ -167,6 +177,7 @@ impl DModel {
             DOp::DropContainerElsewhere => self.container().is_some(),
             DOp::Compare(u, v) => self.alive(u) && self.alive(v),
             DOp::PfsTraverse(u) => self.alive(u) && self.all_alive(),
+            DOp::Lookups(_) => self.all_alive() && !self.edges.is_empty(),
         }
     }
 }
@@ -197,7 +208,7 @@ impl<F: Fl> DWorld<F> {
         }
         let reg = Arc::new(Registry::default());
         let real: Vec<RH<F>> = (0..n).map(|k| RH::Node(F::node(k as K, Val::tracked(0, k as u8, &reg)))).collect();
-        let mut w = DWorld { reg, model: DModel { n, directed: F::DIRECTED, edges: vec![], handles: (0..n as u8).map(MH::Node).collect() }, real };
+        let mut w = DWorld { reg, model: DModel { n, directed: F::DIRECTED, edges: vec![], handles: (0..n as u8).map(MH::Node).collect(), queried: false }, real };
         for (u, v) in init {
             let (a, b) = (w.node(*u), w.node(*v));
             F::connect(&a, &b, 1);
@@ -369,6 +380,20 @@ impl<F: Fl> DWorld<F> {
                     let _ = F::search(&a, &cfg, &mut |_| true);
                 }
             }
+            DOp::Lookups(desc) => {
+                let n = self.model.n as u8;
+                let order: Vec<u8> = if desc { (0..n).rev().collect() } else { (0..n).collect() };
+                for &u in &order {
+                    let a = self.node(u);
+                    for &v in &order {
+                        let _ = F::is_connected(&a, v as K);
+                        drop(F::find_out(&a, v as K));
+                        drop(F::find_in(&a, v as K));
+                    }
+                    let _ = (F::deg_out(&a), F::is_orphan(&a));
+                }
+                self.model.queried = true;
+            }
         }
         Ok(())
     }
@@ -419,6 +444,8 @@ fn ops(n: usize, max_handles: usize) -> Vec<DOp> {
     }
     v.push(DOp::NewContainer);
     v.push(DOp::DropContainerElsewhere);
+    v.push(DOp::Lookups(false));
+    v.push(DOp::Lookups(true));
     for k in 0..n {
         v.push(DOp::Clone(k));
         v.push(DOp::PfsTraverse(k));
@@ -504,6 +531,7 @@ fn kind(op: &DOp) -> &'static str {
         DOp::DropContainerElsewhere => "drop-container-elsewhere",
         DOp::Compare(..) => "compare",
         DOp::PfsTraverse(_) => "pfs-traverse",
+        DOp::Lookups(_) => "lookups",
     }
 }
 
